@@ -5,6 +5,14 @@ import json, subprocess
 BASELINE = json.load(open('/root/.vp/BASELINE.json'))['cmd']
 
 CHECKS = {
+ "C08": dict(level="model_checking", design="DESIGN.md §4 C08",
+   text="Explicit-state search over session histories: every sequence of up to 3 (4) statements from an alphabet of 26 (good statements; lexer, parser and unbalanced-input errors; every runtime error class at top level, at depth, in loop bodies, in suspended and nested generators, in a zip, in closures, with partial global effects; a top-level return out of nested loops) is replayed on a fresh real VM and followed by 9 observers; each statement is compared with the reference model, the machine must be at rest after every statement (hooks), and the observers must answer exactly as in the failure-free twin session holding the same globals.",
+   note="States (reference global store + machine state) are reported for coverage; every history is executed in full on the real VM (traces_validated_against_impl = histories). Longer histories and other failing statements are not covered.",
+   technique="explicit-state exploration of statement histories on the real session object with a reference model, hook invariants and a differential failure-free twin"),
+ "C10": dict(level="model_checking", design="DESIGN.md §4 C10",
+   text="Explicit-state search over every sequence of up to 3 (4) of 32 array/string operations on seven globals (literals at top level / in functions / in loops, all slices, concatenations of slices, nested arrays, passing, iterating, capture in closures and generators); after every operation an observer evaluating every variable, the accumulated earlier results, a literal-returning function and a closure is compared between the real VM and a reference model that copies always. States are (renderings, len/cap, backing-array sharing relation) read through the value hook.",
+   note="distinct_nontrivial counts sequences after which two live arrays really share a backing array with spare capacity; longer sequences and other operations are not covered.",
+   technique="explicit-state exploration of operation sequences on the real VM against a copying reference model, with sharing measured through a hook"),
  "C09": dict(level="exploration", design="DESIGN.md §4 C09",
    text="Through read-only hooks the machine state is read after every statement of (a) every statement form in every statement context and the generator/body/placement loops (sp, frame depth, closure depth, live contexts, main ip must be back at rest) and (b) every statement form as body of every loop driver run with 5 and with 300 (600) iterations, where peak operand-stack use of main and generator contexts, peak live contexts and stack length must not grow with the iteration count.",
    note="Observation is through the verif hooks (memory.VerifState, vm.VerifLiveContexts, step callback); sessions that crash or exhaust fuel are left to C05.",
